@@ -98,6 +98,13 @@ func genSetup(rt *rapid.T, protos []string) Setup {
 
 func genBatch(rt *rapid.T) *Batch {
 	b := &Batch{Setup: genSetup(rt, []string{"Http1", "Http1", "Http1", "bolt", "bolt", "boltpp", "tcp", "tcp"})}
+	// "patient proxy": the timeouts are far beyond the batch (20 s, no per-try timeout), so nothing but the client's
+	// own disconnect ends a request whose upstream stalls - and every client gives up after a drawn delay. The
+	// admissions of a request whose client has gone are given back then, not when a timer eventually fires.
+	patient := b.Proto != "tcp" && rapid.IntRange(0, 4).Draw(rt, "patientProxy") == 0
+	if patient {
+		b.GlobalMs, b.TryMs = 20000, 0
+	}
 	tokSeq := 0
 	tok := func() string { tokSeq++; return fmt.Sprintf("k%d", tokSeq) }
 	genReq := func(label string) ReqPlan {
@@ -107,10 +114,10 @@ func genBatch(rt *rapid.T) *Batch {
 			rp.Attempts = append(rp.Attempts, genAttempt(rt, b.Proto, label))
 		}
 		rp.BodyLen = rapid.SampledFrom([]int{0, 0, 0, 7, 300, 5000}).Draw(rt, label+"body")
-		if rapid.IntRange(0, 3).Draw(rt, label+"ownTimeout") == 0 {
+		if !patient && rapid.IntRange(0, 3).Draw(rt, label+"ownTimeout") == 0 {
 			rp.TimeoutMs = rapid.IntRange(60, 150).Draw(rt, label+"timeoutMs")
 		}
-		if rapid.IntRange(0, 7).Draw(rt, label+"ownTry") == 0 {
+		if !patient && rapid.IntRange(0, 7).Draw(rt, label+"ownTry") == 0 {
 			rp.TryMs = rapid.IntRange(20, 60).Draw(rt, label+"tryTimeoutMs")
 		}
 		return rp
@@ -165,6 +172,14 @@ func genBatch(rt *rapid.T) *Batch {
 				cp.CloseMs = rapid.SampledFrom([]int{5, 40, 100}).Draw(rt, "closeMs")
 			}
 			b.Conns = append(b.Conns, cp)
+		}
+	}
+	if patient {
+		for i := range b.Conns {
+			if cp := &b.Conns[i]; cp.Client == "wait" {
+				cp.Client = rapid.SampledFrom([]string{"close", "rst"}).Draw(rt, "impatient")
+				cp.CloseMs = rapid.SampledFrom([]int{5, 20, 40, 70, 100, 160}).Draw(rt, "patienceMs")
+			}
 		}
 	}
 	b.Kill = rapid.SampledFrom([]string{"", "fin", "rst"}).Draw(rt, "kill")
@@ -574,6 +589,12 @@ func runBatch(t ev.TB, part string, b *Batch) (classes []string, nontrivial bool
 	}
 	if r.did("reset")+r.did("vanish")+r.did("close")+r.did("okclose") > 0 {
 		cls["reset"] = true
+	}
+	if b.GlobalMs >= 20000 {
+		cls["patient-proxy"] = true
+		if atomic.LoadInt32(&br.disconnects) > 0 {
+			cls["patient-proxy:client-gave-up-on-unanswered-request"] = true
+		}
 	}
 	if atomic.LoadInt32(&br.disconnects) > 0 {
 		cls["disconnect"] = true
